@@ -285,7 +285,13 @@ impl Add<Pattern> for Pattern {
     type Output = Pattern;
 
     fn add(self, rhs: Pattern) -> Self::Output {
-        Pattern::regex((self.to_string() + &rhs.to_string()).as_str()).unwrap()
+        // the concatenation must keep the case sensitivity of its parts
+        // (a relative pattern given with --ignore-case gets the base directory prepended)
+        let opts = PatternOpts {
+            case_insensitive: self.anchored_regex.is_case_insensitive()
+                || rhs.anchored_regex.is_case_insensitive(),
+        };
+        Pattern::regex_with((self.to_string() + &rhs.to_string()).as_str(), &opts).unwrap()
     }
 }
 
